@@ -61,6 +61,7 @@ import (
 	"google.golang.org/grpc/status"
 	"google.golang.org/protobuf/proto"
 	"google.golang.org/protobuf/types/descriptorpb"
+	"verif/harness/common"
 )
 
 type Area struct{}
@@ -187,11 +188,122 @@ func parsePlan(s string) plan {
 // ---------------------------------------------------------------------------------------------
 // Exec
 
+// ---------------------------------------------------------------------------------------------
+// per-line watchdog: no line may hang the run
+
+// limits are the waiting bounds of the harness. The controlled schedule knows how long anything may
+// take (callbacks arrive within microseconds of the hooks, a request timeout is 2 ms or never reached,
+// a timer poll takes the clamped interval), so the bounds are generous multiples of that. After
+// hangLimit lines have hit a bound the tree is evidently broken in a way that makes waiting pointless:
+// the bounds shrink so that the whole run still ends in a minute or two.
+type limitSet struct {
+	line   time.Duration // one whole line (plus the timer polls of an interval-polling line)
+	drive  time.Duration // no progress of the poller around its select
+	nowake time.Duration // a wake-up that the D actions should have caused
+	cb     time.Duration // a callback after a poll was triggered (ops without hooks)
+	gone   time.Duration // the poller goroutine to disappear after Close returned
+}
+
+var (
+	limitsMu  sync.Mutex
+	limitsNow = limitSet{line: 6 * time.Second, drive: 4 * time.Second, nowake: 2 * time.Second, cb: 1500 * time.Millisecond, gone: 2 * time.Second}
+	hangs     int
+)
+
+const hangLimit = 3
+
+// After giveUpAfter bounded waits the tree hangs systematically: the remaining lines that involve waiting
+// (histories, close2, indep, opts) are not executed any more and say so; the pure lines still run.
+const giveUpAfter = 20
+
+var gaveUp bool
+
+func givenUp() bool {
+	limitsMu.Lock()
+	defer limitsMu.Unlock()
+	return gaveUp
+}
+
+func limits() limitSet {
+	limitsMu.Lock()
+	defer limitsMu.Unlock()
+	return limitsNow
+}
+
+// noteHang records that a bound was hit.
+func noteHang() {
+	limitsMu.Lock()
+	hangs++
+	switch hangs {
+	case hangLimit:
+		limitsNow = limitSet{line: 2000 * time.Millisecond, drive: 1000 * time.Millisecond, nowake: 400 * time.Millisecond, cb: 400 * time.Millisecond, gone: 400 * time.Millisecond}
+	case 8:
+		limitsNow = limitSet{line: 1000 * time.Millisecond, drive: 300 * time.Millisecond, nowake: 150 * time.Millisecond, cb: 150 * time.Millisecond, gone: 150 * time.Millisecond}
+	}
+	if hangs >= giveUpAfter {
+		gaveUp = true
+	}
+	limitsMu.Unlock()
+}
+
 func (Area) Exec(input string) string {
 	f := strings.Fields(input)
 	switch f[0] {
-	case "hist":
-		return execHist(f)
+	case "hist", "close2", "indep", "opts":
+		if givenUp() {
+			return "!not-run-tree-hangs"
+		}
+	}
+	limit := limits().line
+	if f[0] == "indep" || f[0] == "opts" || f[0] == "close2" {
+		limit += 6 * limits().cb // these ops wait for up to six callbacks / Close outcomes in sequence
+	}
+	var x *exec
+	if f[0] == "hist" {
+		var bad string
+		if x, bad = newHistExec(f); bad != "" {
+			return bad
+		}
+		if x.interval > 0 {
+			limit += time.Duration(len(x.plans)) * (x.interval + 500*time.Millisecond)
+		}
+		verifx.SetHook(x.hook)
+		defer verifx.SetHook(nil)
+	}
+	done := make(chan string, 1)
+	go func() {
+		defer func() {
+			if r := recover(); r != nil {
+				done <- "PANIC " + common.HexS(fmt.Sprint(r))
+			}
+		}()
+		if x != nil {
+			done <- x.run()
+		} else {
+			done <- execOp(f)
+		}
+	}()
+	t := time.NewTimer(limit)
+	defer t.Stop()
+	select {
+	case out := <-done:
+		return out
+	case <-t.C:
+		// the line is abandoned; what WAS observed is reported so that the driver can judge it
+		noteHang()
+		if x != nil {
+			x.abandoned.Store(true)
+			if x.inResolveNow.Load() > 0 {
+				return strings.TrimSpace(x.snapshot() + " !stuck-in-ResolveNow")
+			}
+			return strings.TrimSpace(x.snapshot() + " !watchdog")
+		}
+		return "!watchdog"
+	}
+}
+
+func execOp(f []string) string {
+	switch f[0] {
 	case "hsvc":
 		a, b := parseNameList(f[1]), parseNameList(f[2])
 		if reflection.VerifHashServiceNames(a) == reflection.VerifHashServiceNames(b) {
@@ -259,6 +371,11 @@ type exec struct {
 	selectSeq atomic.Int64 // number of beforeSelect hooks released
 	wokenSeq  atomic.Int64 // number of times the poller has left a select (woken hook, or timer seen at the next beforeResolve)
 
+	abandoned    atomic.Bool  // the per-line watchdog has given this line up: hooks and fakes stop acting
+	inResolveNow atomic.Int32 // number of scripted whole ResolveNow calls that have not returned yet
+
+	tick             bool          // interval polling line
+	pollInterval     time.Duration // PollInterval as handed to the builder
 	interval         time.Duration // 0: PollManually; otherwise the (clamped) PollInterval
 	rtDur            time.Duration // ReqTimeout of this run
 	selectReleasedAt time.Time     // poller-owned: when the beforeSelect hook returned
@@ -306,7 +423,7 @@ func (x *exec) curPlan() plan {
 // doActions performs the scripted actions of one point, in this order: held calls are started (pointer
 // load only), whole ResolveNow calls are made, held calls are released, Close is issued.
 func (x *exec) doActions(point byte) {
-	if x.closed.Load() {
+	if x.closed.Load() || x.abandoned.Load() {
 		return
 	}
 	pl := x.curPlan()
@@ -323,7 +440,14 @@ func (x *exec) doActions(point byte) {
 			defer x.recoverTo("resolveNow")
 			x.res.ResolveNow() // blocks in the hook until released
 		}()
-		<-x.loaded
+		select {
+		case <-x.loaded:
+		case <-time.After(limits().cb):
+			// the call never reached the yield point between pointer load and once-call
+			x.holdNext.Store(false)
+			x.logf("!held-call-not-at-hook")
+			noteHang()
+		}
 	}
 	for i := 0; i < pl.n[point-'A']; i++ {
 		x.safeResolveNow()
@@ -332,11 +456,7 @@ func (x *exec) doActions(point byte) {
 		if h != point {
 			continue
 		}
-		for i := range x.release {
-			close(x.release[i])
-			<-x.finished[i]
-		}
-		x.release, x.finished = nil, nil
+		x.releaseHeld()
 	}
 	if pl.closeAt == point {
 		x.spawnClose()
@@ -374,7 +494,9 @@ func (x *exec) recoverTo(what string) {
 
 func (x *exec) safeResolveNow() {
 	defer x.recoverTo("resolveNow")
+	x.inResolveNow.Add(1)
 	x.res.ResolveNow()
+	x.inResolveNow.Add(-1)
 }
 
 func (x *exec) poke() {
@@ -424,7 +546,7 @@ func (x *exec) pollerStatus() string {
 }
 
 func (x *exec) hook(name string, args ...string) {
-	if len(args) == 0 || args[0] != x.target {
+	if len(args) == 0 || args[0] != x.target || x.abandoned.Load() {
 		return
 	}
 	if name == "resolver.resolveNow.loaded" {
@@ -495,9 +617,9 @@ func classify(err error) string {
 	return "O"
 }
 
-func execHist(f []string) string {
+func newHistExec(f []string) (*exec, string) {
 	if len(f) < 5 || !strings.HasPrefix(f[3], "C=") {
-		return "BADLINE"
+		return nil, "BADLINE"
 	}
 	x := &exec{
 		target:  fmt.Sprintf("c15-%d", targetCounter.Add(1)),
@@ -510,11 +632,11 @@ func execHist(f []string) string {
 	rtTok, piTok, tick := strings.Cut(f[2], ",pi")
 	rt, _ := strconv.Atoi(strings.TrimPrefix(rtTok, "rt"))
 	x.rtDur = time.Duration(rt) * time.Millisecond
-	var pollInterval time.Duration
+	x.tick = tick
 	if tick {
 		pi, _ := strconv.Atoi(piTok)
-		pollInterval = time.Duration(pi) * time.Millisecond
-		x.interval = max(pollInterval, time.Second) // what withDefaults must make of it (pi > 0)
+		x.pollInterval = time.Duration(pi) * time.Millisecond
+		x.interval = max(x.pollInterval, time.Second) // what withDefaults must make of it (pi > 0)
 	}
 	for _, cs := range strings.Split(strings.TrimPrefix(f[3], "C="), ";") {
 		x.contracts = append(x.contracts, parseContract(cs))
@@ -525,17 +647,18 @@ func execHist(f []string) string {
 	for _, pl := range x.plans {
 		for _, a := range pl.att {
 			if a.cid >= len(x.contracts) {
-				return "BADLINE"
+				return nil, "BADLINE"
 			}
 		}
 	}
+	return x, ""
+}
 
-	verifx.SetHook(x.hook)
-	defer verifx.SetHook(nil)
-
+// run executes the history (the hook is installed by Exec) and returns the event log.
+func (x *exec) run() string {
 	builder := reflection.NewResolverBuilder(fakePool{x}, reflection.ResolverOpts{
-		PollManually: !tick,
-		PollInterval: pollInterval,
+		PollManually: !x.tick,
+		PollInterval: x.pollInterval,
 		ReqTimeout:   x.rtDur,
 		OnlyServices: x.os,
 	})
@@ -543,23 +666,35 @@ func execHist(f []string) string {
 	close(x.built)
 
 	x.drive()
-	for i := range x.release {
-		close(x.release[i])
-		<-x.finished[i]
-	}
+	x.releaseHeld()
+	return x.snapshot()
+}
 
+func (x *exec) snapshot() string {
 	x.mu.Lock()
 	defer x.mu.Unlock()
 	return strings.Join(x.log, " ")
 }
 
-const watchdog = 4 * time.Second
+// releaseHeld lets every ResolveNow call that is still held at its hook run to completion (bounded wait).
+func (x *exec) releaseHeld() {
+	for i := range x.release {
+		close(x.release[i])
+		select {
+		case <-x.finished[i]:
+		case <-time.After(limits().gone):
+			x.logf("!held-call-stuck")
+			noteHang()
+		}
+	}
+	x.release, x.finished = nil, nil
+}
 
 // drive is the main-goroutine side of the schedule: it watches the poller around its select,
 // performs the D actions once the poller is parked and ends the run when nothing can wake it.
 func (x *exec) drive() {
 	finish := func() {
-		deadline := time.Now().Add(2 * time.Second)
+		deadline := time.Now().Add(limits().gone)
 		for {
 			if x.pollerStatus() == "gone" {
 				x.logf("X")
@@ -592,8 +727,20 @@ func (x *exec) drive() {
 		if s != lastS || w != lastW {
 			lastS, lastW, lastProgress = s, w, time.Now()
 		}
-		if time.Since(lastProgress) > watchdog {
-			x.logf("!stuck")
+		bound := limits().drive
+		if x.interval > 0 {
+			bound = max(bound, x.interval+time.Second)
+		}
+		if time.Since(lastProgress) > bound {
+			if x.inResolveNow.Load() > 0 {
+				x.logf("!stuck-in-ResolveNow") // a ResolveNow call of the schedule has not returned
+			} else {
+				x.logf("!stuck")
+			}
+			noteHang()
+			return
+		}
+		if x.abandoned.Load() {
 			return
 		}
 		if s == w { // the poller is not at a select
@@ -604,6 +751,7 @@ func (x *exec) drive() {
 			if !nowakeAt.IsZero() && time.Now().After(nowakeAt) {
 				nowakeAt = time.Time{}
 				x.logf("!nowake")
+				noteHang()
 				if !x.closeSpawned.Load() {
 					x.logf("Z")
 					x.spawnClose()
@@ -647,7 +795,7 @@ func (x *exec) drive() {
 					x.spawnClose()
 				}
 			} else if !x.closeSpawned.Load() {
-				nowakeAt = time.Now().Add(2 * time.Second)
+				nowakeAt = time.Now().Add(limits().nowake)
 			}
 		case st == "gone" && !x.closeSpawned.Load():
 			x.logf("!poller-gone")
